@@ -1640,4 +1640,119 @@ theorem c06_T2_owned_programX (ops : List OwnedOpX) {t : Owned} (hs : OSafe t) :
     | base op => exact c06_T2_owned_step op hs
     | layout op => exact osafe_layout_step op hs
 
+/-! ## `transposed` / `transpose` -/
+
+/-- **C06.T2v** reversing the dimension order (`transposed`, `transpose`; the layout code is
+`permute_iter((0..ndim).rev())`, modelled as `dims.reverse`, tied to the real code by C09's
+harness) keeps `VSafe`: the transposed layout addresses exactly the same elements. -/
+theorem c06_T2_transposed {m : Bool} {dims : List (Nat × Nat)} {n : Nat} (hs : VSafe m dims n) :
+    VSafe m dims.reverse n := by
+  refine ⟨fun j hj => ?_, fun hm j j' hj hj' heq => ?_⟩
+  · obtain ⟨v, o⟩ := valid_reverse hj
+    rw [List.reverse_reverse] at v o
+    have := hs.in_bounds _ v
+    omega
+  · obtain ⟨v, o⟩ := valid_reverse hj
+    obtain ⟨v', o'⟩ := valid_reverse hj'
+    rw [List.reverse_reverse] at v o v' o'
+    have := hs.inj hm _ _ v v' (by omega)
+    have h2 := congrArg List.reverse this
+    rwa [List.reverse_reverse, List.reverse_reverse] at h2
+
+/-! ## T3 (continued): the offset arithmetic of `split`, `slice_axis`, `clip_dim` cannot wrap -/
+
+theorem hasZero_of_len_ne {d : List (Nat × Nat)} (h : len d ≠ 0) : hasZero d = false := by
+  cases hz : hasZero d
+  · rfl
+  · exfalso
+    apply h
+    unfold len
+    exact prod_of_anyZero (by rw [← hasZero_eq_anyZero]; exact hz)
+
+/-- The block of `dims` that keeps entries `s .. s+n` of dimension `axis` ends inside the
+parent: `s·stride + min_data_len(block) ≤ min_data_len(dims)`. -/
+theorem subblock_end_le {dims : List (Nat × Nat)} {axis s n : Nat} (hax : axis < dims.length)
+    (hle : s + n ≤ sizeAt dims axis) (hne : len (setSize dims axis n) ≠ 0) :
+    s * strideAt dims axis + minDataLen (setSize dims axis n) ≤ minDataLen dims :=
+  stop_le_of_bounded (fun j hj => by
+    obtain ⟨vj, oj⟩ := embedShift dims axis s n j hax hle hj
+    have := c06_T1_offset_lt_min_data_len _ _ vj
+    omega) (hasZero_of_len_ne hne)
+
+/-- **C06.T3m** on an accepted tensor every quantity `MutLayout::split`, `slice_axis` and
+`clip_dim` compute is bounded by the tensor's `min_data_len ≤ isize::MAX`, so the `usize`
+evaluation cannot wrap and equals the ideal one the model uses:
+`mid_offset = mid·stride` and the range ends (`s = mid`, or `s = 0`, `n = mid`), `slice_axis` /
+`clip_dim`'s `start·stride` and `start·stride + min_data_len(sliced)`, and the element count of
+the resized shape behind `is_empty()`.  (`broadcast` performs no offset arithmetic; its only
+size computation is `checked_shape_len`, covered by T3c.) -/
+theorem c06_T3_subblock_no_wrap {dims : List (Nat × Nat)} {k : Nat} {m : Bool}
+    (acc : Accepted dims k m) {axis s n : Nat} (hax : axis < dims.length)
+    (hle : s + n ≤ sizeAt dims axis) :
+    len (setSize dims axis n) ≤ isizeMax ∧
+    (len (setSize dims axis n) ≠ 0 →
+      s * strideAt dims axis ≤ isizeMax ∧
+      s * strideAt dims axis + minDataLen (setSize dims axis n) ≤ isizeMax) := by
+  have hfit := (c06_T3_accepted_fits acc).2
+  refine ⟨?_, fun hne => ?_⟩
+  · exact Nat.le_trans (prod_le_prodNZ _)
+      (Nat.le_trans (prodNZ_setSize_le dims axis n (by omega)) acc.shape_fits)
+  · have := subblock_end_le hax hle hne
+    omega
+
+/-- The quantities of T3m are exactly what the model's `split` / `sliceAxis` / `clipDim`
+return: instances for a 3×4 tensor. -/
+example : sliceAxis [(3, 4), (4, 1)] 12 0 1 3 = some ⟨1 * 4, 1 * 4 + minDataLen [(2, 4), (4, 1)],
+      setSize [(3, 4), (4, 1)] 0 2⟩ ∧
+    split [(3, 4), (4, 1)] 1 1 = some (⟨0, minDataLen (setSize [(3, 4), (4, 1)] 1 1),
+      setSize [(3, 4), (4, 1)] 1 1⟩, ⟨1 * 1, minDataLen [(3, 4), (4, 1)],
+      setSize [(3, 4), (4, 1)] 1 3⟩) := by decide
+
+/-! ## `index_axis` / `index_axis_mut` -/
+
+/-- `MutLayout::index_axis(axis, index)` + `Storage::slice(_mut)`: the layout with `axis`
+removed, the range `stride·index .. + min_data_len` (`0..0` when empty).  This is the
+`slice_layout` computation for the items `[.., .., index]` (`axis` full ranges, then an
+index), so it is expressed through `trySliceR`; `none` = panic (failed assertion). -/
+def indexAxis (dims : List (Nat × Nat)) (n axis index : Nat) : Option View :=
+  if axis < dims.length ∧ index < sizeAt dims axis then
+    trySliceR dims n (List.replicate axis RItem.keep ++ [RItem.pick index])
+  else none
+
+theorem itemsOk_indexAxis : ∀ (dims : List (Nat × Nat)) (axis index : Nat),
+    axis < dims.length → index < sizeAt dims axis →
+    ItemsOk dims (List.replicate axis RItem.keep ++ [RItem.pick index]) := by
+  intro dims
+  induction dims with
+  | nil => intro axis index h; simp at h
+  | cons d ds ih =>
+    obtain ⟨size, stride⟩ := d
+    intro axis index hax hidx
+    cases axis with
+    | zero =>
+      simp only [sizeAt, List.getD_cons_zero] at hidx
+      exact .cons hidx (.nil _)
+    | succ a =>
+      simp only [sizeAt, List.getD_cons_succ] at hidx
+      simp only [List.length_cons, Nat.add_lt_add_iff_right] at hax
+      exact .cons trivial (ih a index hax hidx)
+
+/-- **C06.T2w** `index_axis(_mut)`: the sub-view lies inside the parent's storage, addresses
+only elements the parent addresses, and is injective if the parent is. -/
+theorem c06_T2_indexAxis {dims : List (Nat × Nat)} {n axis index : Nat} {v : View}
+    (h : indexAxis dims n axis index = some v) :
+    v.start ≤ n ∧ v.stop ≤ n ∧
+    (∀ j, ValidIdx v.dims j →
+      v.start + offset v.dims j < v.stop ∧ v.start + offset v.dims j < minDataLen dims) ∧
+    (Inj dims → Inj v.dims) := by
+  unfold indexAxis at h
+  split at h
+  · next hc => exact c06_T2_slice (itemsOk_indexAxis dims axis index hc.1 hc.2) h
+  · cases h
+
+/-- Non-vacuity: row 1 of a transposed 3×4 tensor (strides `[1, 3]`). -/
+example : indexAxis [(3, 1), (4, 3)] 12 0 1 = some ⟨1, 11, [(4, 3)]⟩ ∧
+    indexAxis [(3, 1), (4, 3)] 12 0 3 = none ∧ ValidIdx [(4, 3)] [3] :=
+  ⟨by decide, by decide, .cons (by omega) .nil⟩
+
 end RtenVerif.TensorBounds
